@@ -12,6 +12,7 @@ Ops == (IF t.n < MAXREQ THEN {[o |-> "request_in", peer |-> p, from |-> f, n |->
        \cup {[o |-> "talk_respond", tr |-> k] : k \in t.held} \cup {[o |-> "talk_respond", tr |-> k, empty |-> TRUE] : k \in t.held}
        \cup {[o |-> "talk_drop", tr |-> k] : k \in t.held} \cup {[o |-> "talk_drop", tr |-> k, unwind |-> TRUE] : k \in t.held}
        \cup (IF t.running THEN {[o |-> "shutdown"]} ELSE {})
+       \cup (IF t.held # {} /\ DEPTH > 0 THEN {[o |-> "advance", ms |-> 25000]} ELSE {})     \* the application takes its time (longer than any request time-out)
 Do(op) == /\ res' = TStep(t, op) /\ t' = res'.t
           /\ resp' = resp \o res'.out
           /\ consumed' = IF op.o \in {"talk_respond", "talk_drop"} THEN Append(consumed, [tr |-> op.tr, how |-> op.o, running |-> t.running]) ELSE consumed
